@@ -37,7 +37,7 @@ def gen_cases(rng, n):
     for _ in range(n):
         name = rng.choice(NAMES)
         prog = rng.choice(list(PROGRAMS))
-        out = rng.choice(["out", ".", "out", "out/", "./out", "out2/sub"])
+        out = rng.choice(["out", ".", "out", "out/", "./out", "out2/sub", "{ABS}", "{ABS}/out", "{ABS}/./out/", "out/../out", "./out/.", "out2/../."])
         targets = rng.choice([["bash"], ["batch"], ["bash", "batch"], ["batch", "bash"], ["bash", "bash"], ["bash", "batch", "bash"], ["batch", "batch"]])
         pairs = [("-i" if rng.random() < 0.7 else "--in", name), ("-o" if rng.random() < 0.7 else "--out", out)]
         pairs += [("-t" if rng.random() < 0.7 else "--type", t) for t in targets]
@@ -76,12 +76,21 @@ def gen_cases(rng, n):
             setup["blockdir"] = True
         elif k < 0.50:
             kind = "odd-argument-count"
+        elif k < 0.62:
+            kind = "stale-output-present"           # a longer file with the output's name is already there
+            setup["stale"] = True
         # options in random order (the order of the -t options among themselves is kept meaningful: it is the write order)
         rng.shuffle(pairs)
         args = [x for p in pairs for x in p]
         if kind == "odd-argument-count":
             args.append(rng.choice(["-t", "extra", "-i"]))
         cases.append(dict(name=name, prog=prog, args=args, kind=kind, setup=setup))
+    # directed: the output file would be the input file, the shared directory spelled in different ways
+    for name, t in (("x.sh", "bash"), ("x.bat", "batch")):
+        for out in (".", "./", "{ABS}", "{ABS}/.", "out/..", "out2/sub/../.."):
+            for prog in ("good", "good2"):
+                cases.append(dict(name=name, prog=prog, args=["-i", name, "-o", out, "-t", t], kind="normal", setup={}))
+                cases.append(dict(name=name, prog=prog, args=["-t", t, "-o", out, "-i", "./" + name], kind="normal", setup={}))
     return cases
 
 
@@ -109,9 +118,19 @@ def run_case(b, case, lib):
                     q = os.path.join(d, o, stem + "." + e)
                     if not os.path.exists(q):
                         os.makedirs(q)
+        if case["setup"].get("stale"):
+            base = os.path.basename(case["name"])
+            i = base.rfind(".")
+            stem = base[:i] if i >= 0 else base
+            for e in ("sh", "bat"):
+                for o in ("out", ".", "out2/sub"):
+                    q = os.path.join(d, o, stem + "." + e)
+                    if not os.path.exists(q):
+                        open(q, "wb").write(b"# stale output of an earlier run\n" * 400)
         before = snapshot(d)
+        real_args = [a.replace("{ABS}", d) for a in case["args"]]
         try:
-            pr = subprocess.run([b.tsh] + case["args"], cwd=d, stdout=subprocess.PIPE, stderr=subprocess.PIPE, timeout=30)
+            pr = subprocess.run([b.tsh] + real_args, cwd=d, stdout=subprocess.PIPE, stderr=subprocess.PIPE, timeout=30)
             status = pr.returncode
         except subprocess.TimeoutExpired:
             status = -9
@@ -129,8 +148,9 @@ def model_request(case, before, lib):
         parts += [k.encode().hex(), v.hex()]
     parts.append(str(len(dirs)))
     parts += [x.encode().hex() for x in dirs]
-    parts.append(str(len(case["args"])))
-    parts += [a.encode().hex() for a in case["args"]]
+    margs = [a.replace("{ABS}/", "./").replace("{ABS}", ".") for a in case["args"]]       # the working directory spelled absolutely
+    parts.append(str(len(margs)))
+    parts += [a.encode().hex() for a in margs]
     return " ".join(parts)
 
 
@@ -178,13 +198,14 @@ def run(res, b, tier, seed):
         if removed:
             fails.append((c, "files removed: %s" % removed, r))
         targets = [c["args"][i + 1] for i in range(len(c["args"]) - 1) if c["args"][i] in ("-t", "--type")]
-        valid = c["kind"] in ("normal", "odd-argument-count")
+        valid = c["kind"] in ("normal", "odd-argument-count", "stale-output-present")
         if valid:
             okall = all(lib[(c["prog"], t)].startswith("OK") for t in targets)
             base = os.path.basename(name)
             i = base.rfind(".")
             stem = base[:i] if i >= 0 else base
             outdir = [c["args"][j + 1] for j in range(len(c["args"]) - 1) if c["args"][j] in ("-o", "--out")][-1]
+            outdir = outdir.replace("{ABS}/", "./").replace("{ABS}", ".")
             same_as_input = any(os.path.normpath(os.path.join(outdir, stem + "." + ("sh" if t == "bash" else "bat"))) == os.path.normpath(name) for t in targets)
             if okall and not same_as_input:
                 if r["status"] != 0:
